@@ -25,6 +25,17 @@ def extract(ctx):
                        stderr=subprocess.STDOUT, text=True, timeout=120)
     if p.returncode != 0 or not os.path.exists(GEN):
         raise checklib.CheckError("C08 fact extractor failed: " + p.stdout[-800:])
+    gen = open(GEN).read()
+    established = "def shapeOk : Bool := true" in gen
+    ctx.coverage["bracket_rule_translated"] = established
+    if not established:
+        why = [l[3:].strip() for l in gen.splitlines() if l.startswith("-- rule not established")]
+        ctx.notes.append("bracket rule NOT established from the source (" + "; ".join(why) + "): the facts about the generated rule "
+                         "are vacuous in this run; amplified search instead: all operator trees with <= 3 operators (infix, prefix, "
+                         "let) through the real printer, compared with the model printer and re-parsed")
+        # the harness processes inherit this environment
+        checklib.GOENV["C08_AMPLIFY"] = "1"
+        ctx.log("bracket rule not established -> amplified search")
 
 
 def post(ctx, cases, gores, model):
